@@ -61,6 +61,10 @@ func shapeSource(i int, shape string, next string) (string, error) {
 		return fmt.Sprintf("func %s(n int) (int, error) {\n\tif n == 0 {\n\t\treturn 1, nil\n\t}\n\treturn w%d(n - 1)\n}\n\nfunc w%d(n int) (int, error) {\n\tif n < 0 {\n\t\treturn 0, errX\n\t}\n\treturn %s(n)\n}\n", f, i, i, f), nil
 	case "closure":
 		return fmt.Sprintf("func %s() error {\n\treturn c%d(func() (int, string, error) {\n\t\treturn 1, \"s\", nil\n\t})\n}\n\nfunc c%d(fn func() (int, string, error)) error {\n\t_, _, err := fn()\n\treturn err\n}\n", f, i, i), nil
+	case "closureNamed":
+		return fmt.Sprintf("func %s() error {\n\treturn c%d(func() (n int, s string, err error) {\n\t\tn = 1\n\t\tif n > 0 {\n\t\t\terr = errX\n\t\t}\n\t\treturn\n\t})\n}\n\nfunc c%d(fn func() (int, string, error)) error {\n\t_, _, err := fn()\n\treturn err\n}\n", f, i, i), nil
+	case "wide":
+		return fmt.Sprintf("func %s(n int) (a, b, c, d, e, f2, g, h int, err error) {\n\tif n == 0 {\n\t\treturn 0, 0, 0, 0, 0, 0, 0, 0, errX\n\t}\n\treturn %s(n - 1)\n}\n", f, f), nil
 	case "named":
 		return fmt.Sprintf("func %s() (n int, err error) {\n\tn = 7\n\tif n > 3 {\n\t\terr = errX\n\t\treturn\n\t}\n\treturn\n}\n", f), nil
 	case "forward":
